@@ -191,7 +191,7 @@ func (s *State) heap(name, sort string) string {
 func (vc *VC) initHeap(name, sort string, epoch int) string {
 	n := fmt.Sprintf("%s!h%d_%d", sanitizeSym(name), vc.id, epoch)
 	if _, ok := vc.eng.syms.syms[n]; !ok {
-		vc.eng.syms.add(n, fmt.Sprintf("(declare-fun %s () %s)", n, sort)+nilMapAxiom(name, n, sort))
+		vc.eng.syms.add(n, fmt.Sprintf("(declare-fun %s () %s)", n, sort)+nilMapAxiom(name, n, sort)+vc.eng.heapWellTyped(name, n))
 	}
 	return n
 }
@@ -260,7 +260,7 @@ func (s *State) growGhost(name, srt string) {
 
 func (s *State) havocHeap(name, sort string) {
 	s.heaps[name] = s.vc.declare(sanitizeSym(name)+"_hv", sort)
-	if ax := nilMapAxiom(name, s.heaps[name], sort); ax != "" {
+	if ax := nilMapAxiom(name, s.heaps[name], sort) + s.vc.eng.heapWellTyped(name, s.heaps[name]); ax != "" {
 		sy := s.vc.eng.syms.syms[s.heaps[name]]
 		sy.Text += ax
 	}
